@@ -81,5 +81,6 @@ package parser
 // Every other function of the package that returns an error: structured and classifiable (C13),
 // cancellation reported as such (C11).
 //@ func *
+//@   except (*ParseError).Unwrap
 //@   ensures  @C13 implies(err != nil, structured(err) || isctx(err))
 //@   ensures  @C11 implies(err != nil && causectx(err), isctx(err))
